@@ -29,11 +29,11 @@ ASSUMPTIONS = [
 ]
 REQUIRED = ['endpoint_server', 'endpoint_client', 'endpoint_file', 'partial_send_requeued', 'accept_zero', 'eagain_injected', 'eintr_injected',
             'enobufs_injected', 'fatal_injected', 'close_while_buffered', 'close_after_drain', 'two_connections_interleaved', 'empty_payload',
-            'write_after_close_request', 'server_wide_close', 'text_payload_multibyte']
+            'write_after_close_request', 'server_wide_close', 'text_payload_multibyte', 'close_requested_by_peer_eof']
 REQUIRED_OBLIGATIONS = ['PREFIX', 'ALL_DELIVERED', 'CLOSE_WAITS_FOR_BUFFER', 'NO_SEND_AFTER_CLOSE', 'FATAL_SIGNALLED', 'CLOSE_HAPPENS']
 WORKER_TIMEOUT = {'quick': 300, 'thorough': 1800}
-EXHAUSTIVE = {'quick': 'all send scripts of length <= 3 over 8 outcomes x 3 payload sets (+ a multi-byte text set for File) x 4 close positions x 3 endpoints',
-              'thorough': 'all send scripts of length <= 5 over 8 outcomes x 3 payload sets (+ a multi-byte text set for File) x 4 close positions x 3 endpoints'}
+EXHAUSTIVE = {'quick': 'all send scripts of length <= 3 over 8 outcomes x 3 payload sets (+ a multi-byte text set for File) x 4 close positions (asked for by a close event or, for sockets, by the peer shutting down its sending side) x 3 endpoints',
+              'thorough': 'all send scripts of length <= 5 over 8 outcomes x 3 payload sets (+ a multi-byte text set for File) x 4 close positions (asked for by a close event or, for sockets, by the peer shutting down its sending side) x 3 endpoints'}
 ENGINE = 'scripted-io'
 TECHNIQUE = 'fault injection: enumerated scripts of send() outcomes on a scripted socket / os.write double under the real endpoint components, byte-exact conservation oracle'
 LEVEL_TEXT = ('The real Server, TCPClient and File components run against a scripted socket (os.write for File) and a scripted poller; every '
@@ -107,6 +107,8 @@ class ScriptedSocket(socket.socket):
         return self._vs.send(data)
 
     def recv(self, n, *a):
+        if getattr(self._vs, 'eof', False):
+            return b''          # the peer has shut down its sending side
         raise BlockingIOError(errno.EWOULDBLOCK, 'nothing')
 
     def shutdown(self, how):
@@ -197,6 +199,7 @@ def make_world(endpoint, scripts):
         W.update(write=lambda i, d: (root.fire(nev.write(socks[i], d), 'srv'), settle()),
                  close=lambda i: (root.fire(nev.close(socks[i]), 'srv'), settle()),
                  close_all=lambda: (root.fire(nev.close(), 'srv'), settle()),
+                 read=lambda i: (root.fire(poll_read(socks[i]), poller.getTarget(socks[i])), settle()),
                  socks=socks, comp=srv, chan='srv', listen=listen)
     elif endpoint == 'client':
         from circuits.net.sockets import TCPClient
@@ -206,7 +209,8 @@ def make_world(endpoint, scripts):
         root.fire(nev.connect('10.0.0.1', 80), 'cli')
         settle()
         W.update(write=lambda i, d: (root.fire(nev.write(d), 'cli'), settle()),
-                 close=lambda i: (root.fire(nev.close(), 'cli'), settle()), socks=[s], comp=cli, chan='cli')
+                 close=lambda i: (root.fire(nev.close(), 'cli'), settle()),
+                 read=lambda i: (root.fire(poll_read(s), poller.getTarget(s)), settle()), socks=[s], comp=cli, chan='cli')
     else:
         import circuits.io.file as fmod
         from circuits.io import File
@@ -264,6 +268,18 @@ def run_case(case):
     close_req = [False] * nconn
     close_pos = case['close_at']      # index into the step list: close requested before that write (None = at the end)
 
+    def request_close(j):
+        """The close of connection j is asked for: by a close event, or (close_by == 'eof') by the peer shutting down its sending side -
+        the endpoint then asks for the close itself, and that close has to wait for the buffer just the same."""
+        if case.get('close_by') == 'eof' and endpoint != 'file':
+            if scripts[j].closed or not W['poller'].isReading(W['socks'][j]):
+                return
+            marks.add('close_requested_by_peer_eof')
+            scripts[j].eof = True
+            W['read'](j)
+        else:
+            W['close'](j)
+
     def accepted(i):
         if endpoint == 'file':
             with open(W['tmp'], 'rb') as fh:
@@ -293,7 +309,7 @@ def run_case(case):
                     if scripts[j].accepted != written[j] and not scripts[j].dead:
                         marks.add('close_while_buffered')
                     if not case.get('close_all'):
-                        W['close'](j)
+                        request_close(j)
                     close_req[j] = True
                 if case.get('close_all'):
                     marks.add('server_wide_close')
@@ -323,7 +339,7 @@ def run_case(case):
                     else:
                         marks.add('close_after_drain')
                     if not case.get('close_all'):
-                        W['close'](j)
+                        request_close(j)
                     close_req[j] = True
                 if case.get('close_all'):
                     marks.add('server_wide_close')
@@ -427,6 +443,8 @@ def enum_cases(maxlen, part, parts):
                         if n % parts != part:
                             continue
                         yield {'endpoint': endpoint, 'payloads': pset, 'script': list(script), 'close_at': close_at}
+                        if endpoint != 'file':
+                            yield {'endpoint': endpoint, 'payloads': pset, 'script': list(script), 'close_at': close_at, 'close_by': 'eof'}
                         if endpoint == 'server' and close_at in (None, 1):
                             yield {'endpoint': endpoint, 'payloads': pset, 'script': list(script), 'close_at': close_at, 'close_all': True}
 
@@ -444,6 +462,11 @@ def corpus():
     for script in (['P', 'P', 'P', 'P', 'P', 'P', 'P', 'P'], ['P', 'EAGAIN', 'P', 'Z', 'P', 'EINTR', 'P'], ['A', 'P', 'EPIPE']):
         for close_at in (None, 1):
             cs.append({'endpoint': 'file', 'payloads': 'u', 'script': script, 'close_at': close_at})
+    for endpoint in ('server', 'client'):
+        for script in ([], ['P', 'P', 'EAGAIN', 'P'], ['Z', 'EAGAIN', 'A', 'P', 'P'], ['A', 'P', 'EPIPE']):
+            for close_at in (None, 1, 2):
+                cs.append({'endpoint': endpoint, 'payloads': 'm', 'script': script, 'close_at': close_at, 'close_by': 'eof', 'pump_between': False})
+    cs.append({'endpoint': 'server', 'two': True, 'payloads': 's', 'script': ['P', 'EAGAIN'], 'script2': ['Z', 'P'], 'close_at': 3, 'close_by': 'eof'})
     for s1, s2 in ((['P', 'EAGAIN'], ['EINTR', 'P', 'Z']), (['EPIPE'], ['P', 'P']), (['ENOBUFS', 'P'], ['ECONNRESET'])):
         for close_at in (None, 1, 3):
             cs.append({'endpoint': 'server', 'two': True, 'payloads': 's', 'script': s1, 'script2': s2, 'close_at': close_at})
@@ -465,6 +488,8 @@ def gen_case(rng):
             'close_at': rng.choice([None, 0, 1, 2, len(PAYLOAD_SETS[pset]) - 1]), 'pump_between': rng.random() < 0.7}
     if case['endpoint'] == 'server' and rng.random() < 0.3:
         case['close_all'] = True
+    elif case['endpoint'] != 'file' and rng.random() < 0.35:
+        case['close_by'] = 'eof'
     if case['endpoint'] == 'server' and rng.random() < 0.4:
         case['two'] = True
         case['script2'] = [rng.choice(OUTCOMES[:6]) for _ in range(rng.randint(0, 6))]
